@@ -124,6 +124,8 @@ def canon(s):
             return ["bool", False]  # unsigned
         if o == "<=" and a == ["n", 0]:
             return ["bool", True]
+        if o == "<=" and b == ["n", 0]:
+            return canon(["op", "==", ["n", 0], a])  # unsigned: x <= 0 is x == 0
         if o in ("||", "&&") and (a[0] == "bool" or b[0] == "bool"):
             k_, other = (a, b) if a[0] == "bool" else (b, a)
             if o == "||":
@@ -1294,6 +1296,11 @@ class Ev:
             raise Opaque("parser fn without parameters: " + f["path"])
         if input_index >= len(params):
             input_index = 0
+        if input_index == 0 and extra_syms is None and not re.fullmatch(r"&(?:'\w+ )?\[u8\]", params[0].get("ty", "")):
+            for j_, p_ in enumerate(params):
+                if re.fullmatch(r"&(?:'\w+ )?\[u8\]", p_.get("ty", "")):
+                    input_index = j_
+                    break
         self.bind_pat(params[input_index], b.tok(), env)
         for idx, p in enumerate(params[:input_index] + params[input_index + 1:]):
             if extra_syms is not None and idx < len(extra_syms):
@@ -1362,6 +1369,17 @@ class Ev:
             return self.eval_result_block(e["expr"], env, gen, b)
         if k == "ret":
             return self.eval_result_block(e["x"], env, gen, b)
+        if k == "if" and strip(e["c"])["k"] == "letexpr" and e.get("f") is not None:
+            le_ = strip(e["c"])
+            p_ = le_["pat"]
+            if p_["k"] == "ptuplestruct" and p_["res"].get("path") == "core::option::Option::Some" and len(p_["pats"]) == 1 and p_["pats"][0]["k"] == "bind":
+                # if let Some(x) = <Option chosen by control flow> { A(x) } else { B }
+                bid = p_["pats"][0]["id"]
+                def leaf(x, env2, nb):
+                    env3 = dict(env)
+                    env3[bid] = self.sym_or_closure(x, env2, gen)
+                    return self.eval_result_block(e["t"], env3, gen, nb)
+                return self.eval_choice(le_["init"], env, gen, b, leaf, lambda nb: self.eval_result_block(e["f"], env, gen, nb))
         if k == "if":
             c = self.sym(e["c"], env, gen)
             if e.get("f") is None:
@@ -1377,6 +1395,9 @@ class Ev:
             if inner is not None:
                 # `expr?` in result position: expr is Result<(rem,val)>; the ? yields the tuple - not a Result
                 raise Opaque("? in result position")
+            if self.is_manual_alt(e):
+                # nom's alt((p, q)) written out: on a recoverable error of p, q runs on the same input
+                return b.alt([lambda nb: self.eval_result_block(e["scrut"], env, gen, nb), lambda nb: self.eval_result_block(e["arms"][0]["body"], env, gen, nb)])
             if self.is_manual_complete(e):
                 # nom's `complete` written out: Incomplete becomes Error(Complete), everything else passes
                 return b.complete(lambda nb: self.eval_result_block(e["scrut"], env, gen, nb))
@@ -1410,12 +1431,62 @@ class Ev:
                         if r != rem_tok:
                             self.anomalies.append(("REMAINDER", "Result::map closure changes the remainder", short_loc(e.get("loc"))))
                         return self.sym(body["xs"][1], env2, gen)
+                    sv = self.sym(body, env2, gen)
+                    if isinstance(sv, list) and sv[0] == "tuple" and len(sv[1]) == 2:
+                        if sv[1][0] != rem_tok:
+                            self.anomalies.append(("REMAINDER", "Result::map closure changes the remainder", short_loc(e.get("loc"))))
+                        return sv[1][1]
                 raise Opaque("Result::map with unrecognised closure")
+            if nm == "core::result::Result::<T, E>::map_err" and len(e["args"]) == 1 and self.is_incomplete_to_complete_mapper(e["args"][0], env):
+                return b.complete(lambda nb: self.eval_result_block(e["recv"], env, gen, nb))
             if nm in ("core::option::Option::<T>::unwrap_or_else", "core::option::Option::<T>::unwrap_or") and len(e["args"]) == 1:
                 # helper(..) -> Option<IResult>, None replaced by an error result
                 return self.eval_choice(e, env, gen, b, lambda x, env2, nb: self.eval_result_block(x, env2, gen, nb), None)
             raise Opaque("method call in result position: " + nm)
         raise Opaque("result expression kind " + k)
+
+    def is_manual_alt(self, e):
+        arms = e["arms"]
+        if len(arms) != 2 or arms[0].get("guard") or arms[1].get("guard"):
+            return False
+        p0, p1 = arms[0]["pat"], arms[1]["pat"]
+        if not (p0["k"] == "ptuplestruct" and p0["res"].get("path") == "core::result::Result::Err" and len(p0["pats"]) == 1):
+            return False
+        q = p0["pats"][0]
+        if not (q["k"] == "ptuplestruct" and q["res"].get("path") == "nom::internal::Err::Error" and len(q["pats"]) == 1 and q["pats"][0]["k"] == "wild"):
+            return False
+        b1 = strip(arms[1]["body"])
+        return p1["k"] == "bind" and not p1.get("sub") and b1["k"] == "local" and b1["id"] == p1["id"] and IRESULT_TY.match(strip(arms[0]["body"]).get("ty", "")) is not None
+
+    def is_incomplete_to_complete_mapper(self, fexpr, env):
+        """|e| match e { Err::Incomplete(_) => Err::Error(make_error(_, Complete)), other => other } (possibly through a named fn)"""
+        f = strip_ref(fexpr)
+        body = None
+        if f["k"] == "closure":
+            body = strip(f["body"])
+            if body["k"] == "block" and not body["stmts"] and body["expr"] is not None:
+                body = strip(body["expr"])
+            if body["k"] == "call" and path_of(body["f"]) and strip(body["f"]).get("local"):
+                callee = self.facts.fn(strip(body["f"]).get("resolved") or path_of(body["f"]))
+                body = strip(callee["hir"]) if callee else None
+        elif f["k"] == "path" and f.get("local"):
+            callee = self.facts.fn(f.get("resolved") or f["path"])
+            body = strip(callee["hir"]) if callee else None
+        while body is not None and body["k"] == "block" and not body["stmts"] and body["expr"] is not None:
+            body = strip(body["expr"])
+        if body is None or body["k"] != "match" or len(body["arms"]) != 2:
+            return False
+        a0, a1 = body["arms"]
+        q = a0["pat"]
+        if a0.get("guard") or a1.get("guard"):
+            return False
+        if not (q["k"] == "ptuplestruct" and q["res"].get("path") == "nom::internal::Err::Incomplete"):
+            return False
+        b0 = strip(a0["body"])
+        if self.err_kind(b0) != ("Complete", "Error"):
+            return False
+        b1 = strip(a1["body"])
+        return a1["pat"]["k"] == "bind" and b1["k"] == "local" and b1["id"] == a1["pat"]["id"]
 
     def is_manual_complete(self, e):
         arms = e["arms"]
@@ -1435,11 +1506,17 @@ class Ev:
 
     def eval_ok_tuple(self, t, env, gen, b):
         t = strip(t)
+        cur = b.tok()
         if t["k"] != "tup" or len(t["xs"]) != 2:
+            s_ = self.sym(t, env, gen)
+            if isinstance(s_, list) and s_[0] == "tuple" and len(s_[1]) == 2:
+                x_, y_ = s_[1]
+                if x_[0] == "slice_to" and y_[0] == "slice_from" and x_[1] == y_[1] == ["tokbytes"] + cur[1:] and x_[2] == y_[2]:
+                    # Ok(i.split_at(n)): a helper that returns (taken bytes, remainder) in that order
+                    return ["swapped", b.bytes(x_[2], "X")]
             raise Opaque("Ok(non-tuple)")
         rem = self.sym(t["xs"][0], env, gen)
         val = self.sym(t["xs"][1], env, gen)
-        cur = b.tok()
         if b.is_cur(rem):
             return val
         # remainder written by hand
@@ -1495,6 +1572,11 @@ class Ev:
             if tpl is not None and pat["k"] == "ptuple" and len(pat["pats"]) == 2:
                 rem_pat, val_pat = pat["pats"]
                 val = self.eval_tuple_expr(ie, env, gen, b, rem_wild=(rem_pat["k"] == "wild"))
+                if isinstance(val, list) and len(val) == 2 and val[0] == "swapped":
+                    # the callee yields (value, remainder): the first component is the value
+                    self.bind_pat(rem_pat, val[1], env)
+                    self.bind_pat(val_pat, b.tok(), env)
+                    return None
                 if rem_pat["k"] != "wild":
                     self.bind_pat(rem_pat, b.tok(), env)
                 self.bind_pat(val_pat, val, env)
@@ -1578,6 +1660,17 @@ class Ev:
         if sc[0] == "mcall" and re.fullmatch(r"core::num::<impl (u8|u16|u32|u64|usize)>::checked_sub", sc[1]) and len(sc[2]) == 2:
             a, c = sc[2]
             return lt(a, c), op("-", a, c)
+        if sc[0] == "mcall" and sc[1] in ("core::bool::<impl bool>::then", "core::bool::<impl bool>::then_some") and len(sc[2]) == 2:
+            c, v = sc[2]
+            if sc[1].endswith("::then"):
+                if not (v[0] == "lam" and v[1] == 0):
+                    return None
+                v = v[2]
+            return negate(c), v
+        if sc[0] == "ifv" and sc[3] == NONE and sc[2][0] == "ctor" and sc[2][1] == "core::option::Option::Some":
+            return negate(sc[1]), sc[2][2][0]
+        if sc[0] == "ifv" and sc[2] == NONE and sc[3][0] == "ctor" and sc[3][1] == "core::option::Option::Some":
+            return sc[1], sc[3][2][0]
         return None
 
     def eval_let_else(self, m, pat, env, gen, b):
@@ -1623,6 +1716,23 @@ class Ev:
                 kind, sev = self.err_kind(x["args"][0])
                 b.fail(kind, sev)
             raise Opaque("early return of a non-error inside a value expression")
+        if k == "match" and is_try(e) is not None:
+            inner = strip(is_try(e))
+            OPT = "core::option::Option::<T>::"
+            if inner["k"] == "mcall" and inner.get("path") in (OPT + "ok_or", OPT + "ok_or_else") and len(inner["args"]) == 1:
+                sp = self.option_split(self.sym(inner["recv"], env, gen))
+                if sp is None:
+                    raise Opaque("ok_or on an Option the analysis cannot split")
+                none_c, val = sp
+                a0 = strip_ref(inner["args"][0])
+                errx = a0["body"] if a0["k"] == "closure" else a0
+                kind, sev = self.err_kind(errx)
+                if sev == "Error":
+                    b.guard(none_c, kind)
+                else:
+                    b.ite(none_c, lambda nb: nb.fail(kind, sev), lambda nb: tup())
+                return val
+            raise Opaque("? on a value the analysis cannot read")
         if k == "match" and is_try(e) is None:
             arms = e["arms"]
             if len(arms) == 2:
@@ -1715,6 +1825,14 @@ class Ev:
                 for p, a in zip(callee["params"], e["args"]):
                     self.bind_pat(p, self.sym_or_closure(a, env, gen), env2)
                 self.called.add(callee["path"])
+                jx = self.input_index(e)
+                region = self.sym(e["args"][jx], env, gen) if re.fullmatch(r"&(?:'\w+ )?\[u8\]", strip(e["args"][jx]).get("ty", "")) else None
+                if region is not None and region[0] == "v" and not b.is_cur(region):
+                    # the helper works on a region its caller cut: everything it does happens inside that region
+                    def inner(nb):
+                        nb.input_alias, nb.alias_at = region, nb.cur
+                        return self.eval_choice(callee["hir"], env2, {}, nb, leaf, none_handler, depth + 1)
+                    return b.sub(region, inner)
                 return self.eval_choice(callee["hir"], env2, {}, b, leaf, none_handler, depth + 1)
         if k == "mcall":
             p = e.get("path") or ""
@@ -2522,6 +2640,13 @@ class Ev:
                 for p, a in zip(clo.hir["params"], args):
                     self.bind_pat(p, self.sym(a, env, gen), env2)
                 return self.sym(clo.hir["body"], env2, clo.gen)
+            if f["k"] == "local" and isinstance(env.get(f["id"]), FnVal):
+                fh = env[f["id"]].hir
+                vals = [self.sym(a, env, gen) for a in args]
+                if fh.get("dk", "").startswith("Ctor"):
+                    return ctor(fh["path"], *vals)
+                tgt = fh.get("resolved") or fh["path"]
+                return self.pure_call(tgt, vals, e) if (fh.get("resolved_local") if fh.get("resolved") else fh.get("local")) else ["call", tgt, vals]
             return ["opaque", "call"]
         if k == "mcall":
             p = e.get("resolved") or e.get("path") or e["name"]
@@ -2550,7 +2675,10 @@ class Ev:
             if m_ and not args:
                 nb_ = int(m_.group(1)) // 8
                 bs = [canon(["cast", "u8", op(">>", recv, N(8 * (nb_ - 1 - i)))]) if i < nb_ - 1 else canon(["cast", "u8", recv]) for i in range(nb_)]
-                return ["array", bs if m_.group(2) == "be" else bs[::-1]]
+                bs = bs if m_.group(2) == "be" else bs[::-1]
+                if all(x[0] == "n" for x in bs):
+                    return ["bytes_lit", [x[1] for x in bs]]
+                return ["array", bs]
             if p == "core::slice::<impl [T]>::split_at" and len(args) == 1:
                 # (x[..n], x[n..]); the out-of-range panic is C01's business (PANIC-SITE split_at rule)
                 return tup(["slice_to", recv, args[0]], ["slice_from", recv, args[0]])
